@@ -27,20 +27,31 @@ Proof. unfold frame; intros (?&?&?&?&?&?) (?&?&?&?&?&?); repeat split; congruenc
 Lemma set_cursor_frame s v : frame s (set_cursor s v).
 Proof.
   unfold set_cursor, cursor_changed.
-  destruct (_ =? cur s); unfold frame; proj; repeat split; auto.
+  destruct (_ =? cur s); [|cbv zeta; destruct (_ =? V_VALID)]; unfold frame; proj; repeat split; auto.
 Qed.
 
 Lemma set_cursor_wi s v : wi (set_cursor s v) = wi s.
-Proof. unfold set_cursor, cursor_changed. destruct (_ =? cur s); reflexivity. Qed.
+Proof. unfold set_cursor, cursor_changed. destruct (_ =? cur s); [|cbv zeta; destruct (_ =? V_VALID)]; reflexivity. Qed.
 
 Lemma set_cursor_hst s v : hst (set_cursor s v) = hst s.
-Proof. unfold set_cursor, cursor_changed. destruct (_ =? cur s); reflexivity. Qed.
+Proof. unfold set_cursor, cursor_changed. destruct (_ =? cur s); [|cbv zeta; destruct (_ =? V_VALID)]; reflexivity. Qed.
 
-Lemma set_cursor_vst s v : vst (set_cursor s v) = vst s.
-Proof. unfold set_cursor, cursor_changed. destruct (_ =? cur s); reflexivity. Qed.
+(* the setter keeps the validation state, or forgets a VALID one when the cursor really moves *)
+Lemma set_cursor_vst s v :
+  vst (set_cursor s v) = vst s \/
+  (vst s = V_VALID /\ vst (set_cursor s v) = V_UNKNOWN /\ cur (set_cursor s v) <> cur s).
+Proof.
+  unfold set_cursor, cursor_changed. destruct (_ =? cur s) eqn:E; [left; reflexivity|].
+  cbv zeta. unfold set_pref at 1 2; proj.
+  destruct (vst s =? V_VALID) eqn:Ev; [|left; reflexivity].
+  right. apply Z.eqb_eq in Ev. apply Z.eqb_neq in E. repeat split; auto.
+Qed.
+
+Lemma set_cursor_not_valid s v : vst s <> V_VALID -> vst (set_cursor s v) = vst s.
+Proof. intros H. destruct (set_cursor_vst s v) as [E|(E & _)]; [exact E | contradiction]. Qed.
 
 Lemma set_cursor_pend s v : pend (set_cursor s v) = pend s.
-Proof. unfold set_cursor, cursor_changed. destruct (_ =? cur s); reflexivity. Qed.
+Proof. unfold set_cursor, cursor_changed. destruct (_ =? cur s); [|cbv zeta; destruct (_ =? V_VALID)]; reflexivity. Qed.
 
 Lemma text_eq s s' : wl s' = wl s -> wi s' = wi s -> text s' = text s.
 Proof. unfold text; intros -> ->; reflexivity. Qed.
@@ -55,7 +66,7 @@ Proof.
   destruct (len (text s) <? v) eqn:E1; [lia|].
   destruct (v <? 0) eqn:E2; [lia|].
   rewrite Z.max_r by lia.
-  destruct (v =? cur s); reflexivity.
+  destruct (v =? cur s); [|cbv zeta; destruct (_ =? V_VALID)]; reflexivity.
 Qed.
 
 Lemma text_changed_frame c s : frame s (text_changed c s).
@@ -153,7 +164,7 @@ Qed.
 
 Lemma go_to_history_frame c s i : frame s (go_to_history c s i).
 Proof.
-  unfold go_to_history. destruct (i <? len (wl s)); [|apply frame_refl].
+  unfold go_to_history. destruct ((0 <=? i) && (i <? len (wl s))); [|apply frame_refl].
   eapply frame_trans; [apply set_wi_frame | apply set_cursor_frame].
 Qed.
 
@@ -303,9 +314,7 @@ Proof.
   destruct o; cbn [is_nav]; intros H; try contradiction; cbn [step_core ok fst snd].
   - apply history_backward_frame.
   - apply history_forward_frame.
-  - destruct (i <? - len (wl s)); cbn [fst snd ok].
-    + unfold frame; proj; repeat split; auto.
-    + apply go_to_history_frame.
+  - apply go_to_history_frame.
   - apply auto_up_frame.
   - apply auto_down_frame.
   - apply end_of_history_frame.
@@ -323,11 +332,23 @@ Proof.
   unfold step_state, step. destruct (step_core c s o) as [[st s'] r]. reflexivity.
 Qed.
 
+(* _cursor_position_changed touches preferred_column and validation_state only *)
+Ltac cc := unfold cursor_changed; cbv zeta; destruct (_ =? V_VALID); reflexivity.
+Lemma cc_wl x : wl (cursor_changed x) = wl x. Proof. cc. Qed.
+Lemma cc_wi x : wi (cursor_changed x) = wi x. Proof. cc. Qed.
+Lemma cc_cur x : cur (cursor_changed x) = cur x. Proof. cc. Qed.
+Lemma cc_hst x : hst (cursor_changed x) = hst x. Proof. cc. Qed.
+Lemma cc_store x : store (cursor_changed x) = store x. Proof. cc. Qed.
+Lemma cc_task x : task (cursor_changed x) = task x. Proof. cc. Qed.
+Lemma cc_tfin x : tfin (cursor_changed x) = tfin x. Proof. cc. Qed.
+Lemma cc_th x : th (cursor_changed x) = th x. Proof. cc. Qed.
+
 (* every operation keeps the kind of the History object *)
 Lemma write_back_th c s b : th (write_back c s b) = th s.
 Proof.
-  unfold write_back, cursor_changed, text_changed.
-  destruct (negb (str_eqb _ _)); destruct (negb (bcur b =? cur s)); destruct (val c); try destruct (vwt c); reflexivity.
+  unfold write_back. destruct (negb (bcur b =? cur s)); [rewrite cc_th|];
+    unfold text_changed;
+    destruct (negb (str_eqb _ _)); destruct (val c); try destruct (vwt c); reflexivity.
 Qed.
 
 Lemma append_to_history_thr s : thr (th (append_to_history s)) = thr (th s).
@@ -432,11 +453,12 @@ Lemma write_back_spec c s b :
   length (wl s') = length (wl s) /\
   (forall j, j <> Z.to_nat (wi s) -> nth_error (wl s') j = nth_error (wl s) j).
 Proof.
-  intros HI. unfold write_back, cursor_changed.
+  intros HI. unfold write_back.
   assert (E : py_update (wl s) (wi s) (fun _ => btext b) = update_nth (wl s) (Z.to_nat (wi s)) (fun _ => btext b))
     by (apply py_update_in_range; exact HI).
   rewrite E.
-  destruct (negb (str_eqb _ _)); destruct (negb (bcur b =? cur s));
+  destruct (negb (bcur b =? cur s)); [rewrite cc_store, cc_task, cc_tfin, cc_wi, cc_wl|];
+    destruct (negb (str_eqb _ _));
     unfold text_changed; destruct (val c); try destruct (vwt c); proj;
     repeat split; auto using update_nth_length; intros; apply update_nth_other; assumption.
 Qed.
@@ -470,9 +492,7 @@ Proof.
 Qed.
 
 (* ---------------------------------------------------------------------- *)
-(* Inv is preserved by everything (go_to_history needs a non-negative index) *)
-Definition wf_op (o : op) : Prop :=
-  match o with OGoto i => 0 <= i | _ => True end.
+(* Inv is preserved by everything *)
 
 Lemma frame_inv s s' : frame s s' -> wi s' = wi s -> Inv s -> Inv s'.
 Proof. unfold frame, Inv. intros (A&_) B. rewrite A, B. auto. Qed.
@@ -546,10 +566,10 @@ Proof.
   destruct (n <? 0); [apply history_backward_pos_inv | apply history_forward_pos_inv]; exact HI.
 Qed.
 
-Lemma go_to_history_inv c s i : 0 <= i -> Inv s -> Inv (go_to_history c s i).
+Lemma go_to_history_inv c s i : Inv s -> Inv (go_to_history c s i).
 Proof.
-  intros Hi HI. unfold go_to_history. destruct (i <? len (wl s)) eqn:E; [|exact HI].
-  apply set_cursor_inv, set_wi_inv. lia.
+  intros HI. unfold go_to_history. destruct ((0 <=? i) && (i <? len (wl s))) eqn:E; [|exact HI].
+  apply andb_true_iff in E as [E1 E2]. apply set_cursor_inv, set_wi_inv. lia.
 Qed.
 
 Lemma set_pref_inv s v : Inv s -> Inv (set_pref s v).
@@ -624,18 +644,17 @@ Proof.
   unfold Inv, len in *. rewrite A, B. exact HI.
 Qed.
 
-Lemma core_inv c s o : wf_op o -> Inv s -> Inv (snd (fst (step_core c s o))).
+Lemma core_inv c s o : Inv s -> Inv (snd (fst (step_core c s o))).
 Proof.
-  intros Hwf HI. destruct o; cbn [step_core ok fst snd wf_op] in *.
+  intros HI. destruct o; cbn [step_core ok fst snd] in *.
   - apply history_backward_inv, HI.
   - apply history_forward_inv, HI.
-  - destruct (i <? - len (wl s)) eqn:E; [unfold Inv in HI; lia|].
-    cbn [ok fst snd]. apply go_to_history_inv; assumption.
+  - apply go_to_history_inv, HI.
   - apply auto_up_inv, HI.
   - apply auto_down_inv, HI.
   - unfold end_of_history.
     assert (H1 : Inv (history_forward c s (10 ^ 100))) by (apply history_forward_inv, HI).
-    apply go_to_history_inv; [unfold Inv in H1; lia | exact H1].
+    apply go_to_history_inv, H1.
   - destruct (insert_text _ _ _ _); cbn [of_res ok fst snd]; [apply write_back_inv|]; exact HI.
   - destruct (delete_before_cursor _ _); cbn [of_res ok fst snd]; [apply write_back_inv|]; exact HI.
   - destruct (delete _ _); cbn [of_res ok fst snd]; [apply write_back_inv|]; exact HI.
@@ -662,13 +681,13 @@ Proof.
   - apply thread_step_inv, HI.
 Qed.
 
-Lemma step_inv c s o : wf_op o -> Inv s -> Inv (step_state c s o).
-Proof. intros Hwf HI. rewrite step_state_full. apply flush_inv, consume_inv, core_inv; assumption. Qed.
+Lemma step_inv c s o : Inv s -> Inv (step_state c s o).
+Proof. intros HI. rewrite step_state_full. apply flush_inv, consume_inv, core_inv; assumption. Qed.
 
-Lemma steps_inv c ops : forall s, Forall wf_op ops -> Inv s -> Inv (steps c s ops).
+Lemma steps_inv c ops : forall s, Inv s -> Inv (steps c s ops).
 Proof.
-  induction ops as [|o r IH]; intros s H HI; cbn [steps fold_left]; [exact HI|].
-  inversion H; subst. apply IH; [assumption | apply step_inv; assumption].
+  induction ops as [|o r IH]; intros s HI; cbn [steps fold_left]; [exact HI|].
+  apply IH, step_inv, HI.
 Qed.
 
 Lemma init_inv storage e : Inv (init storage e).
